@@ -341,12 +341,12 @@ func (r *portsRun) closeProxy(ap *autoPeer, name string) {
 			}
 		}
 	}
-	before := r.sink.N
+	before := int64(r.sink.Count("*"))
 	_ = ap.CloseProxy(name)
 	// wait until handled: the proxy left the session table (or, if it was not there, a hook event appeared)
 	waitFor(3*time.Second, func() bool {
 		if !had {
-			return r.sink.N > before
+			return int64(r.sink.Count("*")) > before
 		}
 		for _, c := range r.state().Ctls {
 			if c.LoginRun == run {
@@ -475,7 +475,7 @@ func (r *portsRun) one(traceNo int, steps int) {
 		panic(err)
 	}
 	r.srv = srv
-	sched.Mapper = r.mapper
+	sched.SetMapper(r.mapper)
 	allow := []int{}
 	for a := 1; a <= r.nAllow; a++ {
 		allow = append(allow, a)
@@ -559,7 +559,7 @@ func (r *portsRun) directedUDPDoubleClose(traceNo int) {
 		panic(err)
 	}
 	r.srv = srv
-	sched.Mapper = r.mapper
+	sched.SetMapper(r.mapper)
 	allow := []int{}
 	for a := 1; a <= r.nAllow; a++ {
 		allow = append(allow, a)
